@@ -956,10 +956,44 @@ def rpairs(rng, keys, lo=0, hi=4):
     return sep("%s=%d" % (rng.choice(keys), rng.randrange(-3, 10)) for _ in range(rng.randrange(lo, hi + 1)))
 
 
+def related_d(rng):
+    """objects that are permutations / equal-but-distinct copies / sub- and supersets of one another (also across
+    odict and lodict, also spelled in another case), then the calls that take another object by reference, each
+    followed by a look at the order: reorder, update, create, ==, construction from the other, sift by its keys"""
+    base = rng.sample(["a", "b", "c", "d1", "x"], rng.choice([2, 3, 3, 4]))
+    vals = {k: rng.randrange(-3, 10) for k in base}
+    def pairs(ks, newvals=False, upper=False):
+        return sep("%s=%d" % (k.upper() if upper and rng.random() < 0.5 else k,
+                              rng.randrange(-3, 10) if newvals and rng.random() < 0.5 else vals.get(k, 7)) for k in ks)
+    def shuffled(ks):
+        ks = list(ks); rng.shuffle(ks); return ks
+    cls = lambda: rng.choice(["od", "od", "lod"])
+    ops = [["new", cls(), pairs(base)],
+           ["new", cls(), pairs(shuffled(base))],                                        # same items, other order
+           ["new", cls(), pairs(shuffled(base)[:max(1, len(base) - 1)], newvals=True)],  # subset
+           ["new", cls(), pairs(shuffled(base + ["q"]), newvals=rng.random() < 0.5)],    # superset
+           ["new", "lod", pairs(shuffled(base), upper=True)]]                            # other spelling
+    n = len(ops)
+    for _ in range(rng.randrange(2, 7)):
+        i, j = rng.randrange(n), rng.randrange(n)
+        k = rng.randrange(8)
+        if k < 3: ops.append(["reorder", str(i), str(j)])
+        elif k < 4: ops.append(["update", str(i), str(j)])
+        elif k < 5: ops.append(["create", str(i), str(j)])
+        elif k < 6: ops.append(["eq", str(i), str(j)])
+        elif k < 7 and n < 6: ops.append(["newfrom", cls(), str(j)]); n += 1
+        elif n < 6: ops.append(["sift", str(i), sep(shuffled(base)[:rng.randrange(1, len(base) + 1)])]); n += 1
+        ops.append(["items", str(i)])
+    return ops, n
+
+
 def gen_d(rng, n_ops, keys=DKEYS):
     ops, n = [], 0
+    if rng.random() < 0.35:
+        ops, n = related_d(rng)
+        n_ops = max(0, n_ops - len(ops))
     # start with one or two objects
-    for _ in range(rng.choice([1, 1, 2])):
+    for _ in range(rng.choice([1, 1, 2]) if not ops else 0):
         ops.append(["new", rng.choice(["od", "lod"]), rpairs(rng, keys, 0, 5)]); n += 1
     def oi():
         return str(rng.randrange(n))
@@ -1004,6 +1038,12 @@ def gen_d(rng, n_ops, keys=DKEYS):
 
 def gen_m(rng, n_ops, keys=MKEYS):
     ops, n = [["new", rpairs(rng, keys, 0, 6)]], 1
+    if rng.random() < 0.3:
+        # a modict with the same (key, value) items in another order, a copy, and the by-reference calls between them
+        ps = clist(ops[0][1]); rng.shuffle(ps)
+        ops += [["new", sep(ps)], ["newfrom", "0"], ["eq", "0", "1"], ["eq", "0", "2"],
+                ["updatefrom", rng.choice(["0", "2"]), "1"], ["allitems", "0"], ["eq", "0", "2"]]
+        n = 3
     def oi(): return str(rng.randrange(n))
     def key(): return rng.choice(keys)
     def val(): return str(rng.randrange(-3, 10))
@@ -1118,7 +1158,9 @@ class CHECK(core.Check):
     N_SEARCH = 3000
     RULE = ("operation sequences (1..30 calls, up to 6 live objects) on odict+lodict / modict / oset over small key "
             "universes with case variants, values -3..9, arguments in every accepted shape (pairs, dict, odict, kwargs, "
-            "several positionals), including calls that must raise; bounded-exhaustive: every sequence of <=2 (quick) / "
+            "several positionals), including calls that must raise; 35% of the odict/lodict and 30% of the modict sequences start with "
+            "objects that are permutations / equal-but-distinct copies / sub- and supersets / other spellings of one another and "
+            "apply the by-reference calls (reorder, update, create, ==, construction, sift) between them; bounded-exhaustive: every sequence of <=2 (quick) / "
             "<=3 (thorough) calls from a reduced alphabet on a two-key universe. non-trivial = at least three calls "
             "returned without exception and the contents of some object changed at least twice; distinct by the op list")
     TRUSTED = ["correspondence: the real odict/lodict/modict/oset objects of the working tree are driven in-process by "
@@ -1187,14 +1229,17 @@ class CHECK(core.Check):
     def exhaustive(self, tier):
         depth = 3 if tier == "thorough" else 2
         # odict and lodict side by side, two keys differing in case only
-        pre = [["new", "od", "a=1,A=2"], ["new", "lod", "a=1,b=2"]]
+        # objects 2 and 3 hold the same items as 0 and 1 in the other order
+        pre = [["new", "od", "a=1,A=2"], ["new", "lod", "a=1,b=2"], ["new", "od", "A=2,a=1"], ["new", "lod", "B=2,a=1"]]
         alpha = []
         for i in ("0", "1"):
             alpha += [["set", i, "A", "5"], ["del", i, "A"], ["insert", i, "0", "A", "6"], ["insert", i, "-1", "c", "6"],
                       ["pop", i, "A", "~"], ["pop", i, "a", "7"], ["popitem", i], ["createp", i, "A=8,c=9"],
                       ["updatep", i, "c=3,A=4"], ["setdefault", i, "B", "0"], ["sift", i, "A"], ["append", i, "A", "1"],
                       ["reorder", i, "0"], ["reorder", i, "1"], ["copy", i], ["pickle", i], ["pickle01", i], ["getitem", i, "A"],
-                      ["has", i, "B"], ["ior", i, "c=7,A=8"], ["or", i, "B=1"], ["rev", i]]
+                      ["has", i, "B"], ["ior", i, "c=7,A=8"], ["or", i, "B=1"], ["rev", i],
+                      ["reorder", i, "2"], ["reorder", i, "3"], ["update", i, "3"], ["create", i, "2"], ["eq", i, "2"],
+                      ["eq", i, "3"]]
         for d in range(1, depth + 1):
             if d == 3:
                 sub = [a for a in alpha if a[0] not in ("getitem", "has", "copy", "sift", "pickle", "pickle01", "or", "rev")]
